@@ -247,6 +247,10 @@ func (b *Body) classifyReturn(ret *ast.ReturnStmt) int {
 		return retMaybe // return f() forwarding a tuple
 	}
 	e = ast.Unparen(ret.Results[idx])
+	// a typed constant converted to error (syscall.Errno constants such as fuse.EIO, fuse.ENOENT) is a non-nil error
+	if tv, ok := info.Types[e]; ok && tv.Value != nil {
+		return retFailure
+	}
 	if id, ok := e.(*ast.Ident); ok {
 		if id.Name == "nil" && info.Uses[id] == types.Universe.Lookup("nil") {
 			return retSuccess
